@@ -37,6 +37,9 @@ var c03Unary = []ref.Instr{
 	// scalar ARGUMENTS at the edges of their range: whole exponents beyond int64, large whole and fractional exponents, factors near the float limits
 	{Op: "pow", F: 1e19}, {Op: "pow", F: 9.3e18}, {Op: "pow", F: 1e30}, {Op: "pow", F: -1e19}, {Op: "pow", F: 40}, {Op: "pow", F: 63}, {Op: "pow", F: 1e15}, {Op: "pow", F: 0.1}, {Op: "pow", F: 1023.5},
 	{Op: "scale", F: 1e-300}, {Op: "scale", F: 1e300}, {Op: "scale", F: 5e-324}, {Op: "scale", F: 1}, {Op: "scale", F: -1},
+	// fractions that have a named root (the double nearest to 1/3 is not one third: a negative base still gives NaN), and their neighbours
+	{Op: "pow", F: 1. / 3}, {Op: "pow", F: 2. / 3}, {Op: "pow", F: -1. / 3}, {Op: "pow", F: 0.25}, {Op: "pow", F: 0.2}, {Op: "pow", F: 1.5}, {Op: "pow", F: 4}, {Op: "pow", F: -3}, {Op: "pow", F: -0.25},
+	{Op: "scale", F: 0.5}, {Op: "scale", F: 2}, {Op: "scale", F: 1e-250}, {Op: "scale", F: -1e-241},
 	{Op: "exp"}, {Op: "log"}, {Op: "sin"}, {Op: "cos"}, {Op: "tan"}, {Op: "sinh"}, {Op: "cosh"}, {Op: "tanh"},
 }
 
